@@ -7,6 +7,11 @@
 // value and the observable state of both instances must equal a reference model (model.go); the
 // traces of the two engines must be equal; the process must survive (words run in supervised
 // child processes).
+//
+// Further sections (see NOTES.md): context variants, atomic sections, named starts, module X, raise styles,
+// host-call environments, and linked families (an owner of a memory / table / global and two importers, any of
+// which ends while the others go on) in the default world and in a world whose linear memories come from a
+// tracking experimental.MemoryAllocator (Free / Reallocate attributed to the defining instance).
 package main
 
 import (
@@ -66,11 +71,13 @@ const (
 	// host-nested call: the alphabet of the host-call environments (envModes)
 	clE
 	clEr
+	// L = linked-family letters (2 families x 3 instances x 8 kinds)
+	clL
 	nClasses
 	nBaseClasses = clVn
 )
 
-var className = [nClasses]string{"K", "r0", "N", "R", "Vn", "Vr", "Vp", "T", "O", "S", "F", "X", "P", "W", "Wr", "E", "Er"}
+var className = [nClasses]string{"K", "r0", "N", "R", "Vn", "Vr", "Vp", "T", "O", "S", "F", "X", "P", "W", "Wr", "E", "Er", "L"}
 
 // Context variants: every step of a word is called with its own cancellable context ("cancel") or its own
 // context with a generous deadline ("deadline"), which the harness cancels after the step has returned; or
@@ -161,6 +168,11 @@ func init() {
 		classes[clE] = append(classes[clE], classes[c]...)
 	}
 	classes[clEr] = []letter{{ShDirectA, KRec0}, {ShHost1P, KRec0}}
+	for sh := ShLuO; sh <= ShLsI2; sh++ {
+		for _, k := range shapeKinds(sh) {
+			classes[clL] = append(classes[clL], letter{sh, k})
+		}
+	}
 	classes[clF] = []letter{{ShLookup, KOk}, {ShCloseN, KOk}, {ShDirectA, KOk}, {ShDirectB, KOk}, {ShViaB, KOk}}
 }
 
@@ -219,6 +231,12 @@ func (s section) word(idx int64) (w []letter, ok bool) {
 	case "same-shape": // the first two letters go through the same shape
 		if w[0].Shape != w[1].Shape {
 			return w, false
+		}
+	case "same-family": // all letters belong to the same linked family
+		for _, l := range w[1:] {
+			if (l.Shape-ShLuO)/3 != (w[0].Shape-ShLuO)/3 {
+				return w, false
+			}
 		}
 	case "same-shape-rec-pair": // two recursions through the same shape (same function objects); any frame, then an edge frame
 		if w[0].Shape != w[1].Shape || !edgeFrame(w[1]) {
@@ -378,6 +396,23 @@ func sectionsFor(tier string) (secs []section, excludedByCap int64) {
 			secs = append(secs, s)
 		}
 	}
+	// linked families (an owner of a memory / table / global and two importers; unshared and shared memory): one
+	// instance ends by exit / close / panic / trap / Module.Close while the others stay open and go on using the
+	// linked resources. Default world and, per allocMode, a world whose memories come from a tracking
+	// experimental.MemoryAllocator; the allocator worlds also run every other letter alone and before a probe.
+	for _, mode := range append([]string{""}, allocModes...) {
+		ls := []section{{tuple: []int{clL}}, {tuple: []int{clL, clL}}, {tuple: []int{clK, clL}}, {tuple: []int{clL, clP}}}
+		if tier == "thorough" {
+			ls = append(ls, section{tuple: []int{clL, clL, clL}, filter: "same-family"})
+		}
+		if mode != "" {
+			ls = append(ls, section{tuple: []int{clE}}, section{tuple: []int{clE, clP}})
+		}
+		for _, s := range ls {
+			s.ctxMode, s.count, s.batch = mode, size(s.tuple), 1024
+			secs = append(secs, s)
+		}
+	}
 	// C06_ONLY=<substring>: diagnostic runs over the sections whose name contains it (always reported as capped)
 	if only := os.Getenv("C06_ONLY"); only != "" {
 		var keep []section
@@ -465,11 +500,13 @@ type stepObs struct {
 	Ret   uint32
 	A, B  string
 	Reg   string // name registry: Runtime.Module of the named start instances
-	X     string // instances of module X
+	X     string // instances of module X (and q, the owner of the memory ximp imports)
+	L     string // linked families
+	Alloc string // allocator-side oracle (allocModes): "ok" | the first offence; "n/a" without a custom allocator
 }
 
 func (o stepObs) String() string {
-	return fmt.Sprintf("%s ret=%d | A{%s} | B{%s} | registry{%s} | X{%s}", o.Class, o.Ret, o.A, o.B, o.Reg, o.X)
+	return fmt.Sprintf("%s ret=%d | A{%s} | B{%s} | registry{%s} | X{%s} | L{%s} | alloc{%s}", o.Class, o.Ret, o.A, o.B, o.Reg, o.X, o.L, o.Alloc)
 }
 
 type viol struct {
@@ -487,6 +524,12 @@ type viol struct {
 const hangTimeout = 30 * time.Second
 
 var childHangs int // steps that did not return, in this process
+
+// sideViols: conditions recorded by runWordSteps that do not end the word (the open finding of the allocator
+// worlds, see allocFinding); drained by the caller of runWord after the word has finished.
+var sideViols []viol
+
+const sigOwnerEndFrees = "alloc:owner-end-frees-linear-memory-still-imported-by-an-open-instance"
 
 var wordWorker chan func()
 
@@ -552,7 +595,12 @@ func runWord(e *engineRT, word []letter, mode string, stats *childStats) (trace 
 func runWordSteps(e *engineRT, word []letter, mode string, stats *childStats, progress chan<- int) (trace []stepObs, v *viol) {
 	w := newWorld(e)
 	defer w.close()
-	m := &modelW{}
+	m := &modelW{alloc: e.env.alloc}
+	al := e.env.alloc
+	wantAlloc := "n/a"
+	if al {
+		wantAlloc = "ok"
+	}
 	tag := e.name + modeTag(mode)
 	var sharedCancel context.CancelFunc
 	if mode == "shared" {
@@ -572,6 +620,7 @@ func runWordSteps(e *engineRT, word []letter, mode string, stats *childStats, pr
 		return &viol{Sig: sig, Word: wordString(word), Ctx: mode,
 			What: fmt.Sprintf("%s: word [%s] step %d (%s, k=%d): implementation {%s} but the reference model says {%s}", tag, wordString(word), i+1, what, i+1, got, want)}
 	}
+	sideReported := false
 	for i, l := range word {
 		progress <- i
 		k := uint32(i + 1)
@@ -589,9 +638,15 @@ func runWordSteps(e *engineRT, word []letter, mode string, stats *childStats, pr
 			cancel()
 			w.settle()
 		}
-		got := stepObs{cl, ret, observe(w.A), observe(w.B), w.registry(), w.observeX()}
+		got := stepObs{cl, ret, observe(w.A, al), observe(w.B, al), w.registry(), w.observeX(), w.observeL(), w.allocCheck()}
+		if o := w.allocFinding(); o != "" && !sideReported {
+			// known on the unchanged tree (findings.json); the word goes on with the released memory left out of the comparison
+			sideReported = true
+			sideViols = append(sideViols, viol{Sig: sigOwnerEndFrees, Word: wordString(word), Ctx: mode,
+				What: fmt.Sprintf("%s: word [%s] step %d (%s): the instance %q that defines the linked memory has ended and its LinearMemory was freed while an instance importing that memory is still open", tag, wordString(word), i+1, l, o)})
+		}
 		mcl, mret := m.step(l, k)
-		want := stepObs{mcl, mret, m.A.String(), m.B.String(), m.registry(), m.observeX()}
+		want := stepObs{mcl, mret, m.A.obs(al), m.B.obs(al), m.registry(), m.observeX(), m.observeL(), wantAlloc}
 		if stats != nil {
 			stats.steps++
 			stats.hist[tag+":"+shapes[l.Shape].name+":"+cl]++
@@ -606,8 +661,8 @@ func runWordSteps(e *engineRT, word []letter, mode string, stats *childStats, pr
 		w.settle()
 		sharedCancel()
 		w.settle()
-		got := stepObs{"after-cancel", 0, observe(w.A), observe(w.B), w.registry(), w.observeX()}
-		want := stepObs{"after-cancel", 0, m.A.String(), m.B.String(), m.registry(), m.observeX()}
+		got := stepObs{"after-cancel", 0, observe(w.A, al), observe(w.B, al), w.registry(), w.observeX(), w.observeL(), w.allocCheck()}
+		want := stepObs{"after-cancel", 0, m.A.obs(al), m.B.obs(al), m.registry(), m.observeX(), m.observeL(), wantAlloc}
 		if stats != nil {
 			stats.steps++
 			stats.hist[tag+":after-cancel"]++
@@ -625,12 +680,16 @@ func diffField(got, want stepObs) string {
 		return "error-kind"
 	case got.Ret != want.Ret:
 		return "result"
+	case got.Alloc != want.Alloc:
+		return "alloc:" + got.Alloc
 	case got.A != want.A:
 		return "A:" + fieldDiff(got.A, want.A)
+	case got.L != want.L:
+		return "L:" + fieldDiff(got.L, want.L)
 	case got.Reg != want.Reg:
 		return "registry:" + fieldDiff(got.Reg, want.Reg)
 	case got.X != want.X:
-		return "X"
+		return "X:" + fieldDiff(got.X, want.X)
 	default:
 		return "B:" + fieldDiff(got.B, want.B)
 	}
@@ -661,6 +720,7 @@ type batchResult struct {
 	Hist       map[string]int64 `json:"h"`
 	States     []string         `json:"st"`
 	Viols      []viol           `json:"v,omitempty"`
+	Known      []viol           `json:"k,omitempty"` // side conditions (at most the first one of the batch)
 }
 
 func failing(l letter) bool {
@@ -682,7 +742,8 @@ func hasDeepHost(w []letter) bool {
 // all other words run in the "plain" pass (clobbering every freed 84 MB stack doubles the cost of a recursion).
 func runBatch(sp *space, sec int, lo, hi int64, pass string) batchResult {
 	st := &childStats{hist: map[string]int64{}, states: map[string]bool{}}
-	var viols []viol
+	var viols, known []viol
+	sideViols = nil
 	mode := sp.secs[sec].ctxMode
 	rts := make([]*engineRT, len(engines))
 	for i, n := range engines {
@@ -705,6 +766,13 @@ func runBatch(sp *space, sec int, lo, hi int64, pass string) batchResult {
 		for i, e := range rts {
 			tr, v, hung := runWord(e, word, mode, st)
 			traces = append(traces, tr)
+			if !hung && len(sideViols) > 0 {
+				st.hist[e.name+modeTag(mode)+":words-with-owner-ended-while-importer-open"]++
+				if known == nil {
+					known = append(known, sideViols[0])
+				}
+				sideViols = nil
+			}
 			if v != nil {
 				viols = append(viols, *v)
 				bad = true
@@ -742,7 +810,7 @@ func runBatch(sp *space, sec int, lo, hi int64, pass string) batchResult {
 		}
 		e.close()
 	}
-	res := batchResult{Words: st.words, Steps: st.steps, Nontrivial: st.nontrivial, Hist: st.hist, Viols: viols}
+	res := batchResult{Words: st.words, Steps: st.steps, Nontrivial: st.nontrivial, Hist: st.hist, Viols: viols, Known: known}
 	for s := range st.states {
 		res.States = append(res.States, s)
 	}
@@ -819,6 +887,7 @@ func main() {
 	var words, steps, nontriv int64
 	states := map[string]bool{}
 	var allViols []viol
+	knownViols := map[string]viol{} // per signature: the shortest word
 	absorb := func(res string) {
 		var br batchResult
 		if err := json.Unmarshal([]byte(res), &br); err != nil {
@@ -834,6 +903,11 @@ func main() {
 			states[s] = true
 		}
 		allViols = append(allViols, br.Viols...)
+		for _, k := range br.Known {
+			if old, ok := knownViols[k.Sig]; !ok || len(k.Word) < len(old.Word) || (len(k.Word) == len(old.Word) && k.Word+k.What < old.Word+old.What) {
+				knownViols[k.Sig] = k
+			}
+		}
 	}
 	workers := runtime.NumCPU()
 	secWords := make([]int64, len(sp.secs))
@@ -917,6 +991,9 @@ func main() {
 	for _, v := range allViols {
 		run.Violation(v.Sig, v.What, map[string]any{"word": v.Word, "ctx": v.Ctx})
 	}
+	for _, v := range knownViols {
+		run.Violation(v.Sig, v.What, map[string]any{"word": v.Word, "ctx": v.Ctx})
+	}
 	for i := 0; i < len(sp.cases); i += len(sp.cases)/16 + 1 {
 		if w, ok := sp.secs[sp.cases[i].sec].word(sp.cases[i].lo); ok {
 			samples.Add(wordString(w))
@@ -935,13 +1012,13 @@ func main() {
 	}
 	run.Finish(fw.Coverage{
 		Evaluations: steps, DistinctNontriv: nontriv, States: words, Transitions: steps, TracesValidated: steps,
-		Rule:    "a state is a history (word) replayed on a fresh world; a transition is one executed step on one engine, compared against the model; a word is non-trivial when a failing step is followed by at least one more step; distinct = distinct (word, context variant) pairs, each run on both engines; the ctx-* sections run on runtimes WithCloseOnContextDone(true); the env-* sections run with another kind of Go host function (api.GoFunc, reflection), with function listeners compiled into every module and / or with experimental.WithSnapshotter on every call context",
+		Rule:    "a state is a history (word) replayed on a fresh world; a transition is one executed step on one engine, compared against the model; a word is non-trivial when a failing step is followed by at least one more step; distinct = distinct (word, context variant) pairs, each run on both engines; the ctx-* sections run on runtimes WithCloseOnContextDone(true); the env-* sections run with another kind of Go host function (api.GoFunc, reflection), with function listeners compiled into every module and / or with experimental.WithSnapshotter on every call context; the alloc-* sections run in worlds whose instantiation context carries a tracking experimental.MemoryAllocator",
 		Samples: samples.List(), Exhaustive: true, Outcomes: outcomes.Map(),
 		Bounds: map[string]any{"full_alphabet": len(fullAlphabet), "core_alphabet": coreNames, "shapes": NShapes, "kinds": NKinds,
 			"class_sizes": map[string]int{"K": len(classes[clK]), "r0": len(classes[clR0]), "N": len(classes[clN]), "R": len(classes[clR]),
-				"Vn": len(classes[clVn]), "Vr": len(classes[clVr]), "Vp": len(classes[clVp]), "T": len(classes[clT]), "O": len(classes[clO]), "S": len(classes[clS]), "F": len(classes[clF]), "X": len(classes[clX]), "P": len(classes[clP]), "W": len(classes[clW]), "Wr": len(classes[clWr]), "E": len(classes[clE]), "Er": len(classes[clEr])},
-			"context_variants": ctxModes, "host_call_environments": envModes,
-			"sections":         secs, "max_recursion_letters_per_word": maxRecPerWord, "engines": engines},
+				"Vn": len(classes[clVn]), "Vr": len(classes[clVr]), "Vp": len(classes[clVp]), "T": len(classes[clT]), "O": len(classes[clO]), "S": len(classes[clS]), "F": len(classes[clF]), "X": len(classes[clX]), "P": len(classes[clP]), "W": len(classes[clW]), "Wr": len(classes[clWr]), "E": len(classes[clE]), "Er": len(classes[clEr]), "L": len(classes[clL])},
+			"context_variants": ctxModes, "host_call_environments": envModes, "allocator_modes": allocModes,
+			"sections": secs, "max_recursion_letters_per_word": maxRecPerWord, "engines": engines},
 		Extra: map[string]any{"words_excluded_by_recursion_cap": sp.excludedByCap, "words_run": words,
 			"distinct_model_states": len(states), "batches": nBatches},
 	}, []string{
@@ -952,6 +1029,7 @@ func main() {
 		"context variants: a step's context is cancelled after the step returned and after waiting (goroutine count back to its value at world creation, at most 50 ms) for stopped watchers to exit; the wait is never a verdict; kinds that close an instance are not part of the variant alphabet",
 		"a step that has not returned after 30 s is reported as a hang of that step (per-word watchdog in the child); conforming steps take microseconds, a recursion about 0.1 s",
 		"host-call environments: listeners only count (pairing of Before with After/Abort is not judged here); snapshots are enabled and, in snaptaken, taken and dropped by every host function of H, never restored; in the api.GoFunc flavour H.close stays a module function (it needs the calling module) and WASI proc_exit is wazero's own module function in every flavour",
+		"allocator world: every linear memory is a Go slice handed out by a tracking allocator whose Free overwrites it with 0xDD; the memory cells of a closed instance are not compared there (freed by design); the known condition 'the defining instance ended and its buffer was freed while an importer is open' is reported under its own signature and does not end the word",
 		"words with a deephost letter run with GODEBUG=clobberfree=1 (use of a freed outgrown stack becomes a crash); all other words run without it",
 	})
 }
@@ -1016,6 +1094,11 @@ func replay() {
 			fmt.Printf("DIVERGENCE %s\n  %s\n", v.Sig, v.What)
 			rc = 1
 		}
+		for _, sv := range sideViols {
+			fmt.Printf("CONDITION %s\n  %s\n", sv.Sig, sv.What)
+			rc = 1
+		}
+		sideViols = nil
 		e.close()
 	}
 	if rc == 0 {
